@@ -44,6 +44,8 @@ double e7(const mp::MinConstraint& c, const VI& x) { return mp::ComputeValue(c, 
 double e8(const mp::AndConstraint& c, const VI& x) { return mp::ComputeValue(c, x); }
 double e9(const mp::OrConstraint& c, const VI& x) { return mp::ComputeValue(c, x); }
 double e10(const mp::CountConstraint& c, const VI& x) { return mp::ComputeValue(c, x); }
+double e11(const mp::NumberofConstConstraint& c, const VI& x) { return mp::ComputeValue(c, x); }
+mp::Violation u11(const mp::SOS1Constraint& c, const VI& x) { return c.ComputeViolation(x); }
 mp::Violation u9(const mp::ComplementarityLinear& c, const VI& x) { return c.ComputeViolation(x); }
 mp::Violation u10(const mp::IndicatorConstraintLinLE& c, const VI& x) { return c.ComputeViolation(x); }
 mp::Violation u1(const mp::LinConRange& c, const VI& x) { return c.ComputeViolation(x, false); }
@@ -172,10 +174,15 @@ class Sym:
             if nm in env:
                 return env[nm], env, []
             raise TranslateError('%s: unknown member %s' % (self.spec['lean'], nm))
+        if k == 'CStyleCastExpr' and e.get('castKind') == 'NoOp' and self.spec.get('int_as_int') \
+                and e['inner'][0].get('kind') == 'ImplicitCastExpr' and e['inner'][0].get('castKind') == 'IntegralToFloating':
+            return self.ev(e['inner'][0], env)        # (double)<int expression>
         if k in ('ImplicitCastExpr', 'CXXFunctionalCastExpr'):
             t, env, L = self.ev(e['inner'][0], env)
             ck = e.get('castKind')
             src = ltype(qtype(strip(e['inner'][0])))
+            if ck == 'IntegralToFloating' and self.spec.get('int_as_int') and src == 'Nat':
+                return '(D.ofInt %s)' % t, env, L
             if ck == 'IntegralToFloating':
                 ptypes = {(p[2] if len(p) > 2 else p[0]): p[1] for p in self.spec.get('params', [])}
                 if ptypes.get(t) == 'Int':
@@ -218,6 +225,10 @@ class Sym:
             if nm in ('max', 'min') and len(args) == 2:
                 a, env, L1 = self.ev(args[0], env)
                 b, env, L2 = self.ev(args[1], env)
+                if ltype(qtype(e)) == 'Nat':
+                    if not self.spec.get('int_as_int'):
+                        raise TranslateError('integer max/min')
+                    return '(%s (%s : Int) %s)' % (nm, a, b), env, L1 + L2
                 return '(D.%s %s %s)' % (nm + "'", a, b), env, L1 + L2
             if nm in ('__builtin_inff', '__builtin_inf', '__builtin_huge_val', '__builtin_huge_valf'):
                 return 'D.pinf', env, []
@@ -326,6 +337,8 @@ class Sym:
                 return ('true' if r else 'false'), env, L
             if t == 'Nat':
                 f = {'+': '+', '*': '*', '&': '&&&', '|': '|||', '<': '<', '>': '>', '<=': '≤', '>=': '≥', '==': '==', '!=': '!='}.get(op)
+                if op == '-' and self.spec.get('int_as_int'):
+                    f = "-"
                 if f is None:
                     raise TranslateError('integer operator ' + op)
                 if op in ('<', '>', '<=', '>='):
@@ -439,6 +452,8 @@ class Sym:
                     raise TranslateError('%s: local %s of type %s' % (self.spec['lean'], d['name'], qtype(d)))
                 t, env, l = self.ev(init[0], env)
                 v = self.fresh(d['name'])
+                if ty == 'Nat' and self.spec.get('int_as_int'):
+                    t = '(%s : Int)' % t
                 L += l + ['let %s := %s' % (v, t)]
                 env = dict(env); env[d['name']] = v
             return self.lets(L) + cont(env)
@@ -451,6 +466,8 @@ class Sym:
             return self.lets(L) + (self.ret_wrap(t) if getattr(self, 'ret_wrap', None) else t)
         if k == 'CXXForRangeStmt':
             return self.range_for(s, env, cont)
+        if k == 'ForStmt':
+            return self.index_for(s, env, cont)
         if k == 'IfStmt':
             parts = s['inner']
             c, th = parts[0], parts[1]
@@ -539,10 +556,14 @@ class Sym:
             raise TranslateError('%s: more than one loop-carried local' % self.spec['lean'])
         xs = self.opaque('args', s)
         xi = self.opaque('x[%s]' % lv, s)
+        return self._fold(body, env, cont, assigned, xs, self.spec.get('elem_name') or xi, self.spec.get('elem_ty', 'D'))
+
+    def _fold(self, body, env, cont, assigned, xs, xi, elem_ty):
         benv = dict(env)
         st_ty, st_pat, st_init = 'Unit', '()', '()'
         if assigned:
-            st_ty, st_pat, st_init = 'D', 'st', env[assigned[0]]
+            st_ty = self.spec.get('state_ty', 'D')
+            st_pat, st_init = 'st', env[assigned[0]]
             benv[assigned[0]] = 'st'
         self.ret_wrap = lambda t: '(Sum.inl %s)' % t
         try:
@@ -550,13 +571,54 @@ class Sym:
         finally:
             self.ret_wrap = None
         res = self.fresh('loop')
-        out = 'match List.foldl (fun (acc : Sum D %s) (%s : D) => match acc with\n    | Sum.inl r => Sum.inl r\n    | Sum.inr %s =>\n%s) (Sum.inr %s) %s with\n' % (
-            st_ty, xi, st_pat, ind(ind(ind(bterm))), st_init, xs)
+        rty = self.spec.get('loop_ret_ty', 'D')
+        out = 'match List.foldl (fun (acc : Sum (%s) %s) (%s : %s) => match acc with\n    | Sum.inl r => Sum.inl r\n    | Sum.inr %s =>\n%s) (Sum.inr %s) %s with\n' % (
+            rty, st_ty, xi, elem_ty, st_pat, ind(ind(ind(bterm))), st_init, xs)
         env2 = dict(env)
         if assigned:
             env2[assigned[0]] = res
         out += '| Sum.inl r => r\n| Sum.inr %s =>\n%s' % (res if assigned else '_', ind(cont(env2)))
         return out
+
+    def assigned_locals(self, body, env):
+        assigned = []
+        for n, _ in walk(body):
+            if (n.get('kind') == 'BinaryOperator' and n.get('opcode') == '=') or (n.get('kind') == 'UnaryOperator' and n.get('opcode') in ('++', '--')) \
+                    or n.get('kind') == 'CompoundAssignOperator':
+                tgt = strip(n['inner'][0])
+                nm = tgt.get('referencedDecl', {}).get('name')
+                if nm is None or nm not in env:
+                    raise TranslateError('%s: assignment to a non-local inside a loop' % self.spec['lean'])
+                if nm not in assigned:
+                    assigned.append(nm)
+        if len(assigned) > 1:
+            raise TranslateError('%s: more than one loop-carried local' % self.spec['lean'])
+        return assigned
+
+    def index_for(self, s, env, cont):
+        """`for (int i = (int)v.size(); i--; ) body` (or `--i`: index 0 left out) where the body reads the i-th element only through
+        the abstracted per-element operands (never `i` itself): a left fold over the REVERSED list of per-element operands"""
+        parts = s.get('inner', [])
+        if len(parts) != 5 or parts[0].get('kind') != 'DeclStmt' or parts[1] or parts[3]:
+            raise TranslateError('%s: for statement of another shape' % self.spec['lean'])
+        vd = parts[0]['inner'][0]
+        iv = vd['name']
+        if 'size' not in [m.get('name') for m, _ in walk(vd)]:
+            raise TranslateError('%s: loop index not initialised with size()' % self.spec['lean'])
+        c = strip(parts[2])
+        while c.get('kind') == 'ImplicitCastExpr':
+            c = strip(c['inner'][0])
+        if c.get('kind') != 'UnaryOperator' or c.get('opcode') != '--' or strip(c['inner'][0]).get('referencedDecl', {}).get('name') != iv:
+            raise TranslateError('%s: loop condition is not a decrement of the index' % self.spec['lean'])
+        post = bool(c.get('isPostfix'))
+        if getattr(self, 'ret_wrap', None):
+            raise TranslateError('nested loops')
+        body = parts[4]
+        assigned = self.assigned_locals(body, env)
+        els = self.opaque('elements', s)
+        el = self.opaque('element', s)
+        xs = '(List.reverse %s)' % els if post else '(List.reverse (List.drop 1 %s))' % els
+        return self._fold(body, env, cont, assigned, xs, el, self.spec.get('elem_ty', 'D'))
 
     @staticmethod
     def ends_with_return(stmts):
@@ -932,6 +994,19 @@ def main(repo, out, work):
     parts.append(emit_def({'cxx': 'mp::IndicatorConstraint<Con>::ComputeViolation (constr_general.h)', 'lean': 'indComputeViolation', 'ret': 'D × D',
                            'params': [('xb0', 'D'), ('bv_', 'Int', 'bv'), ('subviol', 'D'), ('subref', 'D')],
                            'opaque': {'x[b_]': 'xb0', 'ComputeViolation': '(subviol, subref)'}}, fin_[0]))
+    # NumberofConst: range-for whose body asks x.is_var_int(v), x[v], x.feastol(): the elements are pairs (value, is-integer)
+    parts.append(emit_def({'cxx': 'mp::ComputeValue(const NumberofConstConstraint&, x) (constr_eval.h; range-for as a fold over (x[v], is_var_int(v)))',
+                           'lean': 'evalNumberofConst', 'ret': 'D', 'params': [('k', 'D'), ('tol', 'D'), ('xs', 'List (D × Bool)')],
+                           'opaque': {'args': 'xs', 'x[v]': 'xi.1', 'is_var_int': 'xi.2', 'feastol': 'tol'}, 'skip_locals': ('k',),
+                           'elem_name': 'xi', 'elem_ty': 'D × Bool'}, evalfn('NumberofConstConstraint')))
+    # ---- 6f. SOS1: ComputeViolationSOS1 (constr_general.h): index loop counting the members that are non-zero beyond tolerance
+    fs1 = find_fn(dump('SOS_1or2_Constraint'), 'ComputeViolationSOS1', lambda n, p: 'VarInfoImpl' in qtype(n))
+    if not fs1:
+        raise TranslateError('SOS_1or2_Constraint::ComputeViolationSOS1 instantiation not found')
+    parts.append(emit_def({'cxx': 'mp::SOS_1or2_Constraint<type>::ComputeViolationSOS1 (constr_general.h; index loop as a fold over the reversed member list)',
+                           'lean': 'sos1ComputeViolation', 'ret': 'D × D', 'params': [('nz', 'List Bool')],
+                           'opaque': {'elements': 'nz', 'element': 'nzi', 'is_nonzero': 'nzi'}, 'int_as_int': True, 'state_ty': 'Int', 'elem_ty': 'Bool',
+                           'loop_ret_ty': 'D × D'}, fs1[0]))
     # ---- 7. class selection in ComputeViolations
     fn, seq, idx = class_selection(D['ConstraintKeeper'])
     sym_spec = {'cxx': 'ConstraintKeeper<..>::ComputeViolations, lines `int c_class=0; ... if (c_class & chk.check_mode())` (constr_keeper.h)',
